@@ -1,0 +1,39 @@
+//go:build verif
+
+// Machine-checked contracts for package main (comment-only; read by /verif/bin/bornovc).
+package main
+
+// run: lex, parse, and -- only if no lexical or syntax error was flagged -- interpret.
+//@ func run [C08,C19,C20,C06]
+//@ ensures [noexec] utils.HadError && !old(utils.HadError) ==> stdoutN == old(stdoutN) && utils.HadRuntimeError == old(utils.HadRuntimeError) && delivered == old(delivered)
+//@ ensures [mono] (old(utils.HadError) ==> utils.HadError) && (old(utils.HadRuntimeError) ==> utils.HadRuntimeError) && stderrN >= old(stderrN) && stdoutN >= old(stdoutN)
+//@ ensures [clean] !utils.HadError && !utils.HadRuntimeError ==> stderrN == old(stderrN)
+//@ ensures [noexit] exited == old(exited)
+//@ globals utils.HadError utils.HadRuntimeError
+
+// runFile: exit status from the two flags; an unreadable file is reported and nothing runs.
+//@ func runFile [C19,C06,C08]
+//@ requires [fresh] !utils.HadError && !utils.HadRuntimeError
+//@ ensures [codes] exited ==> exitCode == 1 || exitCode == 65 || exitCode == 70
+//@ ensures [s65] exited && exitCode == 65 ==> utils.HadError
+//@ ensures [s70] exited && exitCode == 70 ==> !utils.HadError && utils.HadRuntimeError
+//@ ensures [s0] !exited ==> !utils.HadError && !utils.HadRuntimeError && stderrN == old(stderrN)
+//@ ensures [s1] exited && exitCode == 1 ==> stdoutN == old(stdoutN) && stderrN == old(stderrN)+1 && !utils.HadError && !utils.HadRuntimeError && delivered == old(delivered)
+//@ ensures [syntax] utils.HadError ==> exited && exitCode == 65 && stdoutN == old(stdoutN) && delivered == old(delivered)
+//@ ensures [runtime] !utils.HadError && utils.HadRuntimeError ==> exited && exitCode == 70
+
+// main: more than one argument, or a script name that does not end in .bn: a message on stdout and status 64, nothing else.
+//@ func main [C19]
+//@ requires [fresh] !utils.HadError && !utils.HadRuntimeError
+//@ ensures [usage] old(len(os.Args)) > 2 ==> exited && exitCode == 64 && stdoutN == old(stdoutN)+1 && stderrN == old(stderrN) && delivered == old(delivered)
+//@ ensures [extension] old(len(os.Args)) == 2 && old(ext.fileext(os.Args[1])) != ".bn" ==> exited && exitCode == 64 && stdoutN == old(stdoutN)+1 && stderrN == old(stderrN) && delivered == old(delivered)
+//@ ensures [script] old(len(os.Args)) == 2 && old(ext.fileext(os.Args[1])) == ".bn" && exited ==> exitCode == 1 || exitCode == 65 || exitCode == 70
+
+// runPrompt: both error flags are down whenever a line is read, whatever the previous lines did; end of input ends the session normally.
+//@ func runPrompt [C20]
+//@ requires [fresh] !utils.HadError && !utils.HadRuntimeError
+//@ loop 1:
+//@   invariant [flags] !utils.HadError && !utils.HadRuntimeError
+//@   invariant [alive] exited == old(exited)
+//@ ensures [status0] exited == old(exited)
+//@ ensures [flags] !utils.HadError && !utils.HadRuntimeError
